@@ -74,6 +74,7 @@ pub fn syn_class(c: &Value) -> Result<Value> {
 			"insn_field" => insns.push(json!({"op": "getstatic", "owner": it["o"], "name": it["n"], "desc": it["d"]})),
 			"insn_method" => insns.push(json!({"op": if st(&it["o"]).starts_with('[') { "invokevirtual" } else { "invokestatic" }, "owner": it["o"], "name": it["n"], "desc": it["d"], "itf": false})),
 			"insn_class" => insns.push(json!({"op": "checkcast", "class": it["c"]})),
+			"ldc_string" => insns.push(json!({"op": "ldc", "const": {"string": it["c"]}})),
 			"ldc_class" => insns.push(json!({"op": "ldc", "const": {"class": it["c"]}})),
 			"ldc_mtype" => insns.push(json!({"op": "ldc", "const": {"method_type": it["d"]}})),
 			"ldc_handle" => insns.push(json!({"op": "ldc", "const": {"method_handle": handle_of(st(&it["o"]), st(&it["n"]), st(&it["d"]))}})),
